@@ -12,28 +12,28 @@ Variable O : oracle.
 
 Lemma layout_no_loss :
   forall (s0 r0 : string) (d rep : option string) (t : bool) (tc : option (string * string)) (td : bool)
-         (k n : nat) (f0 f1 f2 : fs),
+         (k j n : nat) (f0 f1 f2 : fs),
     f0 = layout_budget s0 r0 d rep t tc td ->
-    f1 = crash (update_ops O f0) k n f0 ->
+    f1 = crash (update_ops O f0) k j n f0 ->
     f2 = update_rerun O f1 ->
     content_kept f0 f1 f2.
 Proof.
-  intros s0 r0 d rep t tc td k n f0 f1 f2 E0 E1 E2. unfold content_kept.
+  intros s0 r0 d rep t tc td k j n f0 f1 f2 E0 E1 E2. unfold content_kept.
   destruct d as [d0|]; destruct rep as [p0|]; destruct t; destruct tc as [[s1 r1]|]; destruct td; subst f0;
   revert E1; split_k k; norminx E1; subst f1; norminx E2; subst f2; split; solve_no_loss.
 Qed.
 
 Lemma layout_crash_rules_safe :
   forall (s0 r0 : string) (d rep : option string) (t : bool) (tc : option (string * string)) (td : bool)
-         (k n : nat) (f0 f1 f2 : fs),
+         (k j n : nat) (f0 f1 f2 : fs),
     mf O s0 = MfKey [Aconfig; Arules] ->
     layout_guard d tc td k = true ->
     f0 = layout_budget s0 r0 d rep t tc td ->
-    f1 = crash (update_ops O f0) k n f0 ->
+    f1 = crash (update_ops O f0) k j n f0 ->
     f2 = update_rerun O f1 ->
     layout_rules_safe O f0 f1 f2 r0.
 Proof.
-  intros s0 r0 d rep t tc td k n f0 f1 f2 Hmf Hg E0 E1 E2.
+  intros s0 r0 d rep t tc td k j n f0 f1 f2 Hmf Hg E0 E1 E2.
   destruct tc as [[s1 r1]|]; [discriminate Hg|].
   destruct d as [d0|]; cbn in Hg.
   - apply andb_true_iff in Hg. destruct Hg as [Htd Hk]. apply negb_true_iff in Htd. subst td.
